@@ -147,7 +147,7 @@ type c08Handler struct {
 }
 
 func c08(run *ev.Run) int {
-	run.SetRule("negotiation cases = handler registration list x client registration list (all ordered subsets of {zz-rev,Zz-Xor,zz-len}, with gzip re-registered nowhere / last / in the middle) x send-compression in client set + none x client and handler compress-min in {0,1,100,1024} x message sizes {min-1,min,min+1} x 3 protocols x 2 codecs x 4 kinds (seeded sample; thorough also walks every handler-list x client-list pair); isolation histories = corrupt (bit flip, truncation, bad CRC/ISIZE/magic, trailing garbage) and valid compressed calls on shared pools, sequential with GOMAXPROCS=1 and concurrent with GC off, on the handler side and on the client side; paired history = corrupt calls whose compression header is rejected by Reset itself, then valid calls whose instrumented decompressors wait for each other inside Read (so that they own their pooled objects at the same moment); oracle = negotiation model + lossless + threshold + instrumented (de)compressor discipline + double-release table for pooled compressors/decompressors (hook) + every valid call succeeds with its own payload; distinct by (handler list, client list, send, protocol, kind, size class)")
+	run.SetRule("negotiation cases = handler registration list x client registration list (all ordered subsets of {zz-rev,Zz-Xor,zz-len}, with gzip re-registered nowhere / last / in the middle) x send-compression in client set + none x client and handler compress-min in {0,1,100,1024} x message sizes {min-1,min,min+1} x 3 protocols x 2 codecs x 4 kinds (seeded sample; thorough also walks every handler-list x client-list pair); isolation histories = corrupt (bit flip, truncation, bad CRC/ISIZE/magic, trailing garbage) and valid compressed calls on shared pools, sequential with GOMAXPROCS=1 and concurrent with GC off, on the handler side and on the client side; peer terminators = Connect end-of-stream messages (flags 0x03) and gRPC-Web trailer frames (0x81) compressed by a conformant peer with gzip or a custom algorithm; paired history = corrupt calls whose compression header is rejected by Reset itself, then valid calls whose instrumented decompressors wait for each other inside Read (so that they own their pooled objects at the same moment); oracle = negotiation model + lossless + threshold + instrumented (de)compressor discipline + double-release table for pooled compressors/decompressors (hook) + every valid call succeeds with its own payload; distinct by (handler list, client list, send, protocol, kind, size class)")
 	stats := map[string]*svc.AlgoStats{}
 	for _, n := range svc.AlgoNames {
 		stats[n] = &svc.AlgoStats{}
@@ -219,7 +219,10 @@ func c08(run *ev.Run) int {
 	if !run.Replaying() || strings.Contains(os.Getenv("VERIF_REPLAY_KEY"), "/paired/") {
 		c08Paired(run)
 	}
-	return run.Finish("negotiations", "compressed.payloads.verified", "below_min.checked", "unsupported.rejections", "isolation.valid_calls", "isolation.corrupt_calls", "paired.rendezvous")
+	if !run.Replaying() || strings.Contains(os.Getenv("VERIF_REPLAY_KEY"), "/peer-terminator/") {
+		c08PeerTerminators(run)
+	}
+	return run.Finish("negotiations", "compressed.payloads.verified", "below_min.checked", "unsupported.rejections", "isolation.valid_calls", "isolation.corrupt_calls", "paired.rendezvous", "peer_terminators.decoded")
 }
 
 // sizedMsg builds a message whose encoding has min-1 / min / min+1 bytes
@@ -817,4 +820,90 @@ func c08Paired(run *ev.Run) {
 	}
 	run.Count("paired.rendezvous", atomic.LoadInt64(&stats.Paired))
 	serverPanicCheck(run, srv, "c08/paired")
+}
+
+// c08PeerTerminators: "both sides can decode" also covers the last envelope of
+// a stream. A conformant peer may compress it like any other (connect-go's own
+// handler does, above compress-min): a Connect end-of-stream message with flags
+// 0x03, a gRPC-Web trailers frame with flags 0x81. The client must read the
+// error and the trailing metadata out of it.
+func c08PeerTerminators(run *ev.Run) {
+	algos := svc.RefAlgos()
+	stats := &svc.AlgoStats{}
+	zd, zc := svc.Algo("Zz-Xor", stats)
+	msg := encMsg("proto", &gen.Msg{Id: 77, Note: "payload"})
+	for _, algo := range []string{"gzip", "Zz-Xor"} {
+		comp := algos[algo].Compress
+		for _, protocol := range []string{"connect", "grpcweb"} {
+			for _, ending := range []string{"ok", "error"} {
+				for _, msgCompressed := range []bool{true, false} {
+					key := fmt.Sprintf("c08/peer-terminator/%s/%s/%s/msg-compressed=%v", protocol, algo, ending, msgCompressed)
+					if !run.Want(key) {
+						continue
+					}
+					hdr := http.Header{}
+					var body []byte
+					if msgCompressed {
+						body = refcodec.AppendFrame(body, 1, comp(msg))
+					} else {
+						body = refcodec.AppendFrame(body, 0, msg)
+					}
+					if protocol == "connect" {
+						hdr.Set("Content-Type", "application/connect+proto")
+						hdr.Set("Connect-Content-Encoding", algo)
+						end := `{"metadata":{"x-peer-trailer":["t1","t2"]}}`
+						if ending == "error" {
+							end = `{"error":{"code":"aborted","message":"peer says stop"},"metadata":{"x-peer-trailer":["t1","t2"]}}`
+						}
+						body = refcodec.AppendFrame(body, 0x03, comp([]byte(end)))
+					} else {
+						hdr.Set("Content-Type", "application/grpc-web+proto")
+						hdr.Set("Grpc-Encoding", algo)
+						block := "grpc-status: 0\r\nx-peer-trailer: t1\r\nx-peer-trailer: t2\r\n"
+						if ending == "error" {
+							block = "grpc-status: 10\r\ngrpc-message: peer says stop\r\nx-peer-trailer: t1\r\nx-peer-trailer: t2\r\n"
+						}
+						body = refcodec.AppendFrame(body, 0x81, comp([]byte(block)))
+					}
+					cn := &wire.Canned{Respond: func(req *http.Request, _ []byte) (*http.Response, error) {
+						return wire.NewResponse(req, 200, hdr, &wire.ScriptedBody{Data: body}, nil), nil
+					}}
+					opts := append(svc.ProtoOpts(protocol, "proto"), connect.WithAcceptCompression("Zz-Xor", zd, zc))
+					cs := svc.NewClientSet(cn, "http://verif.local", opts...)
+					var cl *svc.CLog
+					ok, _ := watchdog(30*time.Second, func() { cl = cs.Do(context.Background(), svc.ServerStream, "pt", nil, []*gen.Msg{{Id: 1}}) })
+					run.Eval(fmt.Sprintf("peer-terminator|%s|%s|%s|%v", protocol, algo, ending, msgCompressed))
+					run.Count("peer_terminators.decoded", 1)
+					detail := map[string]any{"protocol": protocol, "algorithm": algo, "ending": ending, "message_compressed": msgCompressed}
+					if !ok {
+						run.Violation(key+"/hang", "client call did not return", detail)
+						continue
+					}
+					detail["client_err"], detail["client_trailer"] = errStr(cl.Err), cl.Trailer
+					if len(cl.Msgs) != 1 || cl.Msgs[0].Id != 77 {
+						run.Violation(key+"/message", "the message before the compressed terminator was not delivered", detail)
+						continue
+					}
+					if ending == "ok" {
+						if cl.Err != nil {
+							run.Violation(key+"/failed", "a stream whose last envelope is compressed with the negotiated algorithm failed: "+errStr(cl.Err), detail)
+							continue
+						}
+						if got := cl.Trailer.Values("X-Peer-Trailer"); !sameList(got, []string{"t1", "t2"}) {
+							run.Violation(key+"/trailers", fmt.Sprintf("trailing metadata in the compressed terminator read as %q", got), detail)
+						}
+						continue
+					}
+					var ce *connect.Error
+					if !errors.As(cl.Err, &ce) || ce.Code() != connect.CodeAborted || ce.Message() != "peer says stop" {
+						run.Violation(key+"/error", "the error in the compressed terminator was not read: client reports "+errStr(cl.Err), detail)
+						continue
+					}
+					if got := ce.Meta().Values("X-Peer-Trailer"); !sameList(got, []string{"t1", "t2"}) {
+						run.Violation(key+"/error-meta", fmt.Sprintf("trailing metadata in the compressed terminator read as %q", got), detail)
+					}
+				}
+			}
+		}
+	}
 }
